@@ -41,7 +41,7 @@ pub mod platform {
     { unimplemented!() }
 }
 
-/// `unsafe_fmt_ascii_val!` as used by `etag` (src/lib.rs macro: write!(buf, fmt, args).expect(..) into a buffer of `max_len`).
+/// `unsafe_fmt_ascii_val!` as used by `etag` (src/lib.rs macro: write!(buf, fmt, args) into a BytesMut of initial capacity `max_len`, which grows on demand).
 macro_rules! unsafe_fmt_ascii_val {
     ($max_len:expr, $fmt:literal, $a:expr, $b:expr, $c:expr, $d:expr) => { crate::fmt_hex4($max_len, $fmt, $a, $b, $c, $d) };
     ($max_len:expr, $fmt:literal, $a:expr, $b:expr, $s:expr, $c:expr, $d:expr) => { crate::fmt_hex4s($max_len, $fmt, $a, $b, $s, $c, $d) };
@@ -54,12 +54,10 @@ pub enum FArg { Hex(u64), Str(Seq<char>) }
 pub uninterp spec fn fmt_meaning(v: HeaderValue) -> (Seq<char>, Seq<FArg>);
 #[verifier::external_body]
 pub fn fmt_hex4(max_len: usize, f: &'static str, a: u64, b: u64, c: u64, d: u32) -> (r: HeaderValue)
-    requires max_len >= f@.len() - 16 + 16 * 3 + 8,     // the real write!(..).expect(..) panics when the buffer is too small
     ensures fmt_meaning(r) == (f@, seq![FArg::Hex(a), FArg::Hex(b), FArg::Hex(c), FArg::Hex(d as u64)])
 { unimplemented!() }
 #[verifier::external_body]
 pub fn fmt_hex4s(max_len: usize, f: &'static str, a: u64, b: u64, s: &'static str, c: u64, d: u32) -> (r: HeaderValue)
-    requires max_len >= f@.len() - 18 + 16 * 3 + 8 + s@.len(),
     ensures fmt_meaning(r) == (f@, seq![FArg::Hex(a), FArg::Hex(b), FArg::Str(s@), FArg::Hex(c), FArg::Hex(d as u64)])
 { unimplemented!() }
 
